@@ -74,7 +74,7 @@ def check_aranges(ctx, w):
     f = w.model.func(AR, 'ARanges._get_entries')
     env = expr.FEnv(f.node, params=('need_empty',), inline=False)
     tr = expr.assign_trace(f.node, env)
-    want = [('=', '0'), ('=', expr.spec_nf('offset + unit_length + structs.initial_length_field_size()'))]
+    want = [('=', '0'), ('+=', expr.spec_nf('unit_length + structs.initial_length_field_size()'))]      # x = x + a + b is x += a + b (N2)
     ctx.ob('E-i', f.construct, 'next set = offset + unit_length + initial length size', tr.get('offset') == want, got=tr.get('offset'), expected=want)
     ops = [o.t() for o in streams.func_ops(f.node, env) if o.kind == 'parse']
     ctx.ob('E-i', f.construct, 'header parsed at offset', bool(ops) and ops[0] == ('parse', 'stream', 'Dwarf_aranges_header', 'offset'), got=ops[:1])
@@ -118,7 +118,7 @@ def check_namelut(ctx, w):
     f = w.model.func(NL, 'NameLUT._get_entries')
     env = expr.FEnv(f.node, inline=False)
     tr = expr.assign_trace(f.node, env)
-    want = [('=', '0'), ('=', expr.spec_nf('offset + unit_length + _structs.initial_length_field_size()'))]
+    want = [('=', '0'), ('+=', expr.spec_nf('unit_length + _structs.initial_length_field_size()'))]
     ctx.ob('W-LUT', f.construct, 'next set = offset + unit_length + initial length size', tr.get('offset') == want, got=tr.get('offset'), expected=want)
     ops = [o.t() for o in streams.func_ops(f.node, env)]
     want_ops = [('seek', '_stream', '0', 'SEEK_SET'), ('parse', '_stream', 'Dwarf_nameLUT_header', 'offset'), ('parse', '_stream', 'entry_struct', None)]
@@ -177,7 +177,9 @@ def check_extents(ctx, w):
             p = vals[0]
             ok = p in (expr.spec_nf('offset + unit_length + x.initial_length_field_size()').replace('initial_length_field_size(x)', 'initial_length_field_size()'),
                        'initial_length_field_size() + offset + unit_length', 'initial_length_field_size(entry_structs) + length + offset',
-                       'initial_length_field_size() + length + offset')
+                       'initial_length_field_size() + length + offset',
+                       # the advancing form: position += length + initial length size
+                       'initial_length_field_size() + unit_length', 'initial_length_field_size() + length')
         ctx.ob('SIB', '%s:%s' % (mod, q), '%s = position + length + initial_length_field_size()' % var, ok, got=tr.get(var),
                msg='unit extent computed differently from the other unit walks of the package',
                sample='%s: %s = offset + length + initial length size' % (q, var))
